@@ -6,9 +6,7 @@ open Lean Aldy.Wire
 
 def jAdded (j : Json) : Except String AddedMut := do
   pure { pos := ← jInt (← field j "pos"), op := ← jStr (← field j "op"), rsid := ← jStr (← field j "rsid"),
-         functional := ← jBool (← field j "functional") }
-
-def addedLt (a b : AddedMut) : Bool := a.pos < b.pos || (a.pos == b.pos && a.op < b.op)
+         functional := ← jBool (← field j "functional"), refPos := ← jInt (fieldD j "ref_pos" (.num 0)) }
 
 /-- input: per copy `major` and `added` (unsorted), deletion allele, tandems.
 output: names, arrangement, rendered diplotype -/
